@@ -550,6 +550,11 @@ def d_device_configurations(m):
     sp2.tensor_name = "a"
     dc2 = n.device_configurations.add()
     dc2.configuration_id = "cfg_b"
+    dc2.pipeline_stage = 0  # the first stage: a present field whose value is the default
+    n1 = m.graph.node[1]
+    dc3 = n1.device_configurations.add()
+    dc3.configuration_id = "cfg_a"
+    dc3.pipeline_stage = 0
 
 
 @_dev
